@@ -354,6 +354,32 @@ def case_web404(spec, cov, out):
     cov.inc("games")
 
 
+def case_shared_browser(spec, cov, out):
+    """directed: two agents use the SAME client's browser and the admin acts between them in the step order (a0, admin, a1): what a
+    component reads after the step (the browser's latest request) may stem from another agent's later action in the same step."""
+    rnd = random.Random(spec["seed"])
+    net = webnet()
+    comp = lambda sticky, w: {"type": "webpage-unavailable-penalty", "weight": w, "options": {"node_hostname": "c1", "sticky": sticky}}  # noqa: E731
+    rcfgs = {"a0": [comp(True, 0.5), comp(False, 0.25)], "a1": [comp(True, 0.5), comp(False, 0.25), {"type": "shared-reward", "weight": 1.0, "options": {"agent_name": "a0"}}],
+             "admin": [{"type": "dummy"}]}
+    order = spec.get("order", ["a0", "admin", "a1"])
+    mk = {"a0": lambda: envdrv.proxy_agent("a0", client_actions("c1"), rcfgs["a0"]), "a1": lambda: envdrv.proxy_agent("a1", client_actions("c1"), rcfgs["a1"]),
+          "admin": lambda: envdrv.proxy_agent("admin", ADMIN_ACTIONS, rcfgs["admin"])}
+    cfg = net.scenario(agents=[mk[n]() for n in order], max_len=64, seed=1)
+    B, stop_web, start_web, stop_db, start_db = 1, 1, 2, 3, 4
+    idle = {"a0": 0, "a1": 0, "admin": 0}
+    def step(**kw):
+        return {**idle, **kw}
+    script = [step(a0=B), step(), step(a0=B, admin=stop_web, a1=B), step(), step(admin=start_web), step(a0=B, a1=B), step(a1=B, admin=stop_db, a0=B), step(),
+              step(admin=start_db), step(a0=B, admin=stop_web), step(a1=B), step(admin=start_web, a0=B, a1=B), step()]
+    for _ in range(spec.get("extra", 24)):
+        script.append(step(a0=B if rnd.random() < 0.6 else 0, a1=B if rnd.random() < 0.6 else 0,
+                           admin=rnd.choice([0, 0, stop_web, start_web, stop_db, start_db])))
+    run_game(cfg, script, cov, out, {"seed": spec["seed"], "order": order, "rewards": "webpage-unavailable-penalty on one shared client"}, "shared-browser")
+    cov.inc("games")
+    cov.inc("shared_browser_steps", len(script))
+
+
 def case_load_graphs(spec, cov, out):
     """sharing graphs through the real loader: RuntimeError iff cyclic; acyclic ones are stepped and checked."""
     from primaite.game.game import PrimaiteGame
@@ -422,7 +448,7 @@ def case_uc2(spec, cov, out):
         probes.uninstall_all()
 
 
-RUN = {"graphs": case_graphs, "game": case_game, "load": case_load_graphs, "uc2": case_uc2, "web404": case_web404}
+RUN = {"graphs": case_graphs, "game": case_game, "load": case_load_graphs, "uc2": case_uc2, "web404": case_web404, "shared-browser": case_shared_browser}
 
 
 class Check:
@@ -458,6 +484,8 @@ class Check:
             specs.append({"name": f"load-{seed * 1000 + s}", "kind": "load", "seed": seed * 1000 + s, "n": 12 if tier == "quick" else 40})
         for s in range(2 if tier == "quick" else 8):
             specs.append({"name": f"web404-{seed * 1000 + s}", "kind": "web404", "seed": seed * 1000 + s, "extra": 20 if tier == "quick" else 80})
+        for s, order in enumerate([["a0", "admin", "a1"], ["a1", "admin", "a0"], ["admin", "a0", "a1"]]):
+            specs.append({"name": f"shared-browser-{s}", "kind": "shared-browser", "seed": seed * 1000 + s, "order": order, "extra": 24 if tier == "quick" else 100})
         for s in range(2 if tier == "quick" else 6):
             specs.append({"name": f"uc2-{seed * 1000 + s}", "kind": "uc2", "seed": seed * 1000 + s, "episodes": 2,
                           "steps": 64 if tier == "quick" else 128})
